@@ -173,6 +173,9 @@ pub struct Node {
     pub stutter: Vec<(usize, String)>,
     /// the chosen thread was waiting under a stutter rule and was told to spin on alone until its loop gives up (a deviation)
     pub give_up: bool,
+    /// the spurious failure of this node starts a storm: the thread's weak CAS keeps failing spuriously, round after
+    /// round of its retry loop, while it runs on alone (a deviation; implies `spurious`)
+    pub storm: bool,
 }
 
 #[derive(Clone, Debug, PartialEq)]
@@ -221,6 +224,8 @@ struct ExecState {
     last_idle_rmw: Vec<Option<(OpKind, usize, u64, u64)>>,
     /// a thread spinning on alone after a give-up deviation: (thread, loop key, steps taken so far)
     alone: Option<(usize, String, usize)>,
+    /// a spurious-failure storm in progress (see `Storm`)
+    storm: Option<Storm>,
     /// steps taken by threads spinning on alone (not counted against the step horizon)
     alone_total: usize,
     /// per thread: the loads (cell, value read, peek) executed since its last operation that was not a load
@@ -248,6 +253,25 @@ struct Aborted;
 
 /// An execution in which no thread reaches a scheduling point for this long is a machinery failure (exit 2).
 const HANG_LIMIT_S: u64 = 15;
+
+/// Spurious-failure storm: `compare_exchange_weak` may fail spuriously any number of times. After the first spurious
+/// failure the thread runs on alone; the operations up to its next weak CAS are learned as the body of its retry loop,
+/// and every further weak CAS fails spuriously too for as long as the thread repeats exactly that body (at most
+/// STORM_MAX failures). The first operation that departs from the body ends the storm *before* it executes, with
+/// ordinary scheduling (all alternatives) from there on. This reaches code that reacts to the n-th lost
+/// compare-exchange of a cell (back-off, mode switches) at the cost of one deviation instead of n preemptions.
+#[derive(Clone, Debug)]
+struct Storm {
+    t: usize,
+    body: Vec<(String, usize)>,
+    learned: bool,
+    pos: usize,
+    fails: usize,
+}
+pub const STORM_MAX: usize = 64;
+const STORM_BODY_MAX: usize = 6;
+/// Storm deviations are offered only when this is set (check binaries whose subject retries a weak CAS).
+pub static STORM: std::sync::atomic::AtomicBool = std::sync::atomic::AtomicBool::new(false);
 
 /// A thread told to spin on alone must leave its loop within this many steps, else the loop counts as unbounded.
 const GIVE_UP_LIMIT: usize = 20_000;
@@ -277,6 +301,7 @@ impl Exec {
                 forced_stutter: 0,
                 last_idle_rmw: vec![None; n],
                 alone: None,
+                storm: None,
                 alone_total: 0,
                 load_log: vec![vec![]; n],
                 calls: vec![],
@@ -378,6 +403,42 @@ impl Exec {
                 }
             }
         }
+        // a spurious-failure storm keeps its thread running, alone, for as long as it repeats its retry loop
+        if let Some(mut sm) = st.storm.take() {
+            let t = sm.t;
+            let mut step: Option<Directive> = None;
+            if let (Some(p), true) = (pend[t], enabled.contains(&t)) {
+                if matches!(p.kind, PKind::Sync(OpKind::CmpXchg { weak: true })) {
+                    if sm.fails < STORM_MAX && (!sm.learned || sm.pos == sm.body.len()) {
+                        sm.learned = true;
+                        sm.pos = 0;
+                        sm.fails += 1;
+                        step = Some(Directive::SpuriousFail);
+                    }
+                } else if matches!(p.kind, PKind::Sync(_)) && !p.is_lock_op() {
+                    let key = (format!("{:?}", p.kind), p.addr);
+                    if !sm.learned {
+                        if sm.body.len() < STORM_BODY_MAX {
+                            sm.body.push(key);
+                            step = Some(Directive::Proceed);
+                        }
+                    } else if sm.pos < sm.body.len() && sm.body[sm.pos] == key {
+                        sm.pos += 1;
+                        step = Some(Directive::Proceed);
+                    }
+                }
+            }
+            if let Some(d) = step {
+                // an automatic step: no node, no alternatives, no position in the schedule
+                st.storm = Some(sm);
+                st.alone_total += 1;
+                st.directive[t] = d;
+                st.current = Some(t);
+                st.prev = Some(t);
+                self.cvs[t].notify_one();
+                return;
+            }
+        }
         // a thread spinning on alone (give-up deviation) keeps running, and only it, until it leaves its loop
         if let Some((t, key, steps)) = st.alone.clone() {
             if stutter.iter().any(|(u, _)| *u == t) {
@@ -434,9 +495,14 @@ impl Exec {
         }
         let mut spurious = false;
         let mut give_up = false;
+        let mut storm = false;
         let chosen = if pos < st.prefix.len() {
             let mut c = st.prefix[pos];
-            if c >= 2 * n {
+            if c >= 3 * n {
+                c -= 3 * n;
+                spurious = true;
+                storm = true;
+            } else if c >= 2 * n {
                 // give-up deviation: this waiting thread spins on alone
                 c -= 2 * n;
                 match stutter.iter().find(|(u, _)| *u == c) {
@@ -480,11 +546,14 @@ impl Exec {
             return;
         }
         st.directive[chosen] = if spurious { Directive::SpuriousFail } else { Directive::Proceed };
+        if storm {
+            st.storm = Some(Storm { t: chosen, body: vec![], learned: false, pos: 0, fails: 1 });
+        }
         if give_up {
             // recorded as a node without scheduling alternatives
             enabled = vec![chosen];
         }
-        st.nodes.push(Node { enabled: enabled.clone(), pending: pend.clone(), chosen, prev: st.prev, sleep: st.sleep.clone(), spurious, weak_cas: if give_up { vec![] } else { weak_cas }, stutter: if give_up { vec![] } else { stutter }, give_up });
+        st.nodes.push(Node { enabled: enabled.clone(), pending: pend.clone(), chosen, prev: st.prev, sleep: st.sleep.clone(), spurious, weak_cas: if give_up { vec![] } else { weak_cas }, stutter: if give_up { vec![] } else { stutter }, give_up, storm });
         // sleep-set propagation along the executed transition
         if st.use_sleep && pos >= st.prefix.len() {
             let cp = pend[chosen].unwrap();
@@ -682,7 +751,7 @@ impl Execution {
     /// Choice list (replay artefact): thread id, or `threads + id` for "this thread, and its weak CAS fails spuriously".
     pub fn choices(&self) -> Vec<usize> {
         let n = self.nodes.first().map(|x| x.pending.len()).unwrap_or(0);
-        self.nodes.iter().map(|x| if x.give_up { 2 * n + x.chosen } else if x.spurious { n + x.chosen } else { x.chosen }).collect()
+        self.nodes.iter().map(|x| if x.storm { 3 * n + x.chosen } else if x.give_up { 2 * n + x.chosen } else if x.spurious { n + x.chosen } else { x.chosen }).collect()
     }
     pub fn deviations(&self) -> usize {
         self.nodes.iter().filter(|x| x.spurious).count()
@@ -1145,6 +1214,12 @@ pub fn explore<D: Driver + 'static>(driver: D, mode: Mode, max_execs: u64, worke
                                     let mut p = choices[..i].to_vec();
                                     p.push(nthreads + t);
                                     children.push(Work { prefix: p, sleep: vec![], preemptions: cost });
+                                    if STORM.load(MemOrd::Relaxed) {
+                                        // the same failure, followed by a storm of further spurious failures
+                                        let mut p = choices[..i].to_vec();
+                                        p.push(3 * nthreads + t);
+                                        children.push(Work { prefix: p, sleep: vec![], preemptions: cost });
+                                    }
                                 }
                             }
                             // deviation: a thread waiting in a loop spins on alone until the loop gives up (no reduction below it)
